@@ -313,6 +313,12 @@ func c14Composition(c *explore.Ctx, order []string) {
 		vsched.Settle()
 		f2 := w.Dial("F2")
 		f2.Connect(harness.ConnectOpts{ClientID: "f", Clean: false, Version: refmqtt.V5, Props: &refmqtt.Props{SessionExpiry: harness.U32(100)}})
+		// take-over of an online client whose session ends with its connection (no expiry)
+		g := w.Dial("G")
+		g.Connect(harness.ConnectOpts{ClientID: "g", Clean: true, Version: refmqtt.V5})
+		g2 := w.Dial("G2")
+		g2.Connect(harness.ConnectOpts{ClientID: "g", Clean: true, Version: refmqtt.V5})
+		vsched.Settle()
 		w.Stop()
 		if !w.StopDone {
 			c.Violate("stop", "stop-did-not-return", cas(), "Stop returns", fmt.Sprint(vsched.ThreadsParked()))
@@ -324,6 +330,24 @@ func c14Composition(c *explore.Ctx, order []string) {
 			must[k] = true
 		}
 		c14Nesting(c, cas, order, c14Kinds, must, "")
+		// each hook fires exactly once per event: the number of base calls per kind equals the
+		// number of events of that kind the script caused (8 connections: a b e d f f2 g g2;
+		// sessions created for all but f2, which resumes; sessions ended: a at its close, g by
+		// the take-over, and b e d g2 - no session expiry - when Stop closes them; f is kept)
+		wantN := map[string]int{"OnAccept": 8, "OnBasicAuth": 7, "OnEnhancedAuth": 1, "OnReAuth": 1, "OnConnected": 8, "OnSessionCreated": 7, "OnSessionResumed": 1,
+			"OnSessionTerminated": 6, "OnClosed": 8, "OnSubscribe": 2, "OnSubscribed": 2, "OnUnsubscribe": 1, "OnUnsubscribed": 1, "OnMsgArrived": 2, "OnDelivered": 1,
+			"OnMsgDropped": 1, "OnWillPublish": 1, "OnWillPublished": 1, "OnStop": 1}
+		gotN := map[string]int{}
+		for _, l := range c14.log {
+			if strings.HasPrefix(l, "base:") {
+				gotN[strings.TrimPrefix(l, "base:")]++
+			}
+		}
+		for _, k := range c14Kinds {
+			if gotN[k] != wantN[k] {
+				c.Violate("fires-once-per-event", fmt.Sprintf("%s-fired-%d-times-for-%d-events", k, gotN[k], wantN[k]), cas(), fmt.Sprint(wantN[k]), fmt.Sprint(gotN[k]))
+			}
+		}
 		var wantLoad []string
 		for _, n := range order {
 			wantLoad = append(wantLoad, "load:"+n)
